@@ -15,7 +15,8 @@ open Httpcache
 /-- Every store write of an exchange is justified. For every request, clock and environment: an
     exchange writes nothing, or the request is a plain GET and the writes directly follow its
     single origin call and are (a) the write-back of the entry that was read, with unchanged
-    status and body, after a 304, or (b) the writes of one StoreResponse call for a reply that is
+    status and body, after a 304 that answers the stored validators (no precondition of the client's
+    own went upstream in their place — `WritesAfter.freshen`), or (b) the writes of one StoreResponse call for a reply that is
     not a 304, for which the storability evaluator said yes and whose body was read completely
     (`StoreWrites`: nothing if the body failed; no index write if the entry write failed). -/
 theorem writes_justified (cfg : Cfg) (t0 : Int) (req : Req) (tr : List Step) (r : Result)
@@ -56,7 +57,7 @@ theorem writes_justified (cfg : Cfg) (t0 : Int) (req : Req) (tr : List Step) (r 
       cases hx with
       | origin ans h1 =>
         rw [hget] at h1
-        exact ⟨ans, _, rfl, validation_writes _ _ _ _ _ _ _ _ _ _ _ _ _ h1⟩
+        exact ⟨ans, _, rfl, validation_writes _ _ _ _ _ _ _ _ _ _ _ _ h1⟩
     have fin : ∀ trx, (∃ ans post, trx = Step.origin req.method (withConditional req.header (parsedEntry e0).resp.header) none ans :: post ∧
           WritesAfter req (makeURLKey req) (some (parsedEntry e0)) (fixAns cfg ans) post) → tr2 = trx →
         (isRequestMethodUnderstood req = true ∧
